@@ -164,6 +164,194 @@ type evWorld struct {
 	mu     sync.Mutex
 	local  evRow
 	peers  []evRow
+	// oracle bookkeeping
+	statusOff bool
+	tracked  map[*gocql.HostInfo]bool // objects reported DOWN by an event and not connected since
+	prevIDs  map[int]bool             // host ids of the ring before the last evrefresh
+	lastRows []evRow                  // rows of the last evrefresh
+}
+
+// ---- the property's oracles, evaluated on the real snapshot
+
+// trackDown: a DOWN event for address a marks the known, unfiltered host of that address
+func (e *evWorld) trackDown(sn gocql.VerifEvSnap, a int) {
+	id, ok := sn.RingByIP[ipKey(a)]
+	if !ok {
+		return
+	}
+	h := sn.RingByID[id]
+	if h == nil || !evFilter.Accept(h) {
+		return
+	}
+	e.tracked[h] = true
+}
+
+func (e *evWorld) trackBatch(sn gocql.VerifEvSnap, b []evEvent, statusDisabled bool) {
+	if statusDisabled {
+		return
+	}
+	last := map[int]byte{}
+	var order []int
+	for _, ev := range b {
+		if ev.kind == 't' {
+			continue
+		}
+		if _, ok := last[ev.addr]; !ok {
+			order = append(order, ev.addr)
+		}
+		last[ev.addr] = ev.kind
+	}
+	for _, a := range order {
+		if last[a] == 'd' {
+			e.trackDown(sn, a)
+		}
+	}
+}
+
+// notOffered: no tracked object is up, listed by the policy and owner of a pool at the same time
+func (e *evWorld) notOffered() string {
+	sn := e.snap()
+	inPol := map[*gocql.HostInfo]bool{}
+	for _, l := range [][]*gocql.HostInfo{sn.TA, sn.Local, sn.Remote} {
+		for _, h := range l {
+			inPol[h] = true
+		}
+	}
+	for h := range e.tracked {
+		if _, pool := sn.Pools[h.HostID()]; h.IsUp() && inPol[h] && pool {
+			return "offered"
+		}
+	}
+	return "ok"
+}
+
+type specHost struct{ id, addr, caddr, dc int }
+
+// specReported: the property's reported set for the rows: local host + peers rows with all of rpc_address, host_id,
+// data_center, rack, tokens; node address = broadcast_address else peer; connect address = first usable of
+// rpc_address, broadcast_address, peer (rows without any usable address are not hosts)
+func specReported(rows []evRow) []specHost {
+	var out []specHost
+	for i, r := range rows {
+		valid := func(a int) bool { return a >= 2 }
+		ca := 0
+		for _, a := range []int{r.rpc, r.bcast, r.peer} {
+			if valid(a) {
+				ca = a
+				break
+			}
+		}
+		if ca == 0 {
+			continue
+		}
+		na := 0
+		if valid(r.bcast) {
+			na = r.bcast
+		} else if valid(r.peer) {
+			na = r.peer
+		}
+		if i > 0 && (r.rpc == 0 || r.id == 0 || r.dc == 0 || r.rack == 0 || r.tok == 0) {
+			continue
+		}
+		out = append(out, specHost{r.id, na, ca, r.dc})
+	}
+	return out
+}
+
+func (e *evWorld) follows() string {
+	sn := e.snap()
+	acc := map[int]specHost{}
+	var accList []specHost
+	for _, h := range specReported(e.lastRows) {
+		if h.dc != 3 {
+			acc[h.id] = h
+			accList = append(accList, h)
+		}
+	}
+	var bad []int
+	add := func(n int) {
+		if len(bad) == 0 || bad[len(bad)-1] != n {
+			bad = append(bad, n)
+		}
+	}
+	ring := map[int]*gocql.HostInfo{}
+	for k, h := range sn.RingByID {
+		ring[evIDNum(k)] = h
+	}
+	for id := range ring {
+		if _, ok := acc[id]; !ok {
+			add(1)
+		}
+	}
+	for id := range acc {
+		if _, ok := ring[id]; !ok {
+			add(2)
+		}
+	}
+	for k := range sn.Pools {
+		if _, ok := acc[evIDNum(k)]; !ok {
+			add(3)
+		}
+	}
+	for _, l := range [][]*gocql.HostInfo{sn.TA, sn.Local, sn.Remote} {
+		for _, h := range l {
+			if _, ok := acc[evIDNum(h.HostID())]; !ok {
+				add(4)
+			}
+		}
+	}
+	for id := range ring {
+		if !e.prevIDs[id] {
+			if _, ok := sn.Pools[e.idStr(id)]; !ok {
+				add(5)
+			}
+		}
+	}
+	for _, want := range accList {
+		id := want.id
+		h, ok := ring[id]
+		if !ok {
+			add(6)
+			continue
+		}
+		na, cf, _ := gocql.VerifHostAddrs(h)
+		if evIPNum(na) != want.addr || evIPNum(cf) != want.caddr {
+			add(6)
+		}
+	}
+	sort.Ints(bad)
+	var out []int
+	for i, n := range bad {
+		if i == 0 || bad[i-1] != n {
+			out = append(out, n)
+		}
+	}
+	if len(out) == 0 {
+		return "ok"
+	}
+	return "violated:" + joinInts(out)
+}
+
+func (e *evWorld) inPolicy() string {
+	sn := e.snap()
+	fb := map[*gocql.HostInfo]bool{}
+	for _, l := range [][]*gocql.HostInfo{sn.Local, sn.Remote} {
+		for _, h := range l {
+			fb[h] = true
+		}
+	}
+	var missing []int
+	for k, h := range sn.RingByID {
+		id := evIDNum(k)
+		if !e.prevIDs[id] && !fb[h] {
+			missing = append(missing, id)
+		}
+	}
+	sort.Ints(missing)
+	if len(missing) == 0 {
+		return "ok"
+	}
+	return "missing:" + joinInts(missing)
 }
 
 func (e *evWorld) close() {
@@ -384,7 +572,8 @@ func evExec(w *world, f []string) (res string, ok bool) {
 		}
 		cfg := gocql.VerifEvConfig{Policy: pol, Filter: evFilter,
 			DisableTopologyEvents: strings.Contains(f[3], "T"), DisableNodeStatusEvents: strings.Contains(f[3], "S")}
-		ne := &evWorld{policy: pol, objs: map[int]*gocql.HostInfo{}}
+		ne := &evWorld{policy: pol, objs: map[int]*gocql.HostInfo{}, tracked: map[*gocql.HostInfo]bool{}, prevIDs: map[int]bool{},
+			statusOff: strings.Contains(f[3], "S")}
 		if f[1] == "ev" {
 			s, err := gocql.NewVerifEvSession(cfg)
 			if err != nil {
@@ -447,15 +636,27 @@ func evExec(w *world, f []string) (res string, ok bool) {
 		e.sess.RemoveHost(e.idStr(atoi(f[1])))
 		return e.answer(""), true
 	case "evbatch", "evbatchx":
-		e.sess.HandleNodeEvent(toNodeEvents(parseEvBatch(f[1])))
+		b := parseEvBatch(f[1])
+		e.trackBatch(e.snap(), b, e.statusOff)
+		e.sess.HandleNodeEvent(toNodeEvents(b))
 		return e.answer(""), true
+	case "evnotoffered":
+		return e.notOffered(), true
+	case "evfollows", "evfollowsx":
+		return e.follows(), true
+	case "evinpolicy", "evinpolicyx":
+		return e.inPolicy(), true
 	case "evup":
 		e.sess.HandleNodeUp(evIP(atoi(f[1])), 9042)
 		return e.answer(""), true
 	case "evdown":
+		e.trackDown(e.snap(), atoi(f[1]))
 		e.sess.HandleNodeDown(evIP(atoi(f[1])), 9042)
 		return e.answer(""), true
 	case "evconn":
+		if h, ok := e.snap().Pools[e.idStr(atoi(f[1]))]; ok {
+			delete(e.tracked, h)
+		}
 		e.sess.HandleNodeConnected(e.idStr(atoi(f[1])))
 		return e.answer(""), true
 	case "evfail":
@@ -470,6 +671,11 @@ func evExec(w *world, f []string) (res string, ok bool) {
 			return "bad-op", true
 		}
 		e.cp.Do(func() { e.local, e.peers = rows[0], rows[1:] })
+		e.prevIDs = map[int]bool{}
+		for k := range e.snap().RingByID {
+			e.prevIDs[evIDNum(k)] = true
+		}
+		e.lastRows = rows
 		return e.answer(refreshClass(e.sess.RefreshRing()) + " "), true
 	case "evrefreshfail":
 		if e.cp == nil {
@@ -802,6 +1008,14 @@ func (g *evGen) direct() {
 		default:
 			g.runBatch(g.batch(known, addrs))
 		}
+		if !g.dead && len(g.w.ev.tracked) > 0 && r.Intn(3) == 0 {
+			g.emit("evnotoffered", "evnotoffered/spec-backed", true)
+		}
+	}
+	if idx := r.Intn(40); !g.dead && idx < 2 {
+		// the event debouncer's buffer: 1000 frames per window
+		n := []int{3, 999, 1000, 1500}[r.Intn(4)]
+		g.emit(fmt.Sprintf("evdeb %d u7,d7", n), fmt.Sprintf("evdeb/burst-of-%d", n+1), true)
 	}
 }
 
@@ -836,6 +1050,65 @@ func (m member) row(local bool) evRow {
 		row.rpc, row.peer, row.bcast = 0, 0, 0
 	}
 	return row
+}
+
+// afterRefresh emits the oracle ops for the refresh just run: spec-backed when the report is within the
+// hypotheses of the theorems (C16_follows_oracle_ok, C16_inpolicy_oracle_ok), else the `…x` variants, classified by
+// the exact excluded condition
+func (g *evGen) afterRefresh(prior gocql.VerifEvSnap, rows []evRow, ok bool) {
+	guard := ""
+	for i, r := range rows {
+		if i > 0 && r.id == 0 && r.rpc != 0 && r.dc != 0 && r.rack != 0 && r.tok != 0 {
+			guard = "peer-row-with-null-host-id-accepted"
+		}
+	}
+	spec := specReported(rows)
+	seen := map[int]bool{}
+	for _, h := range spec {
+		if h.dc == 3 {
+			continue
+		}
+		if seen[h.id] && guard == "" {
+			guard = "duplicate-host-id-in-report"
+		}
+		seen[h.id] = true
+	}
+	if !ok && guard == "" {
+		guard = "refresh-failed"
+	}
+	if guard == "" {
+		g.emit("evfollows", "evfollows/spec-backed", true)
+	} else {
+		g.emit("evfollowsx", "evfollowsx/"+guard, true)
+	}
+	// every NEW node must use a connect address that neither a host of the prior ring nor another accepted host uses
+	pguard := guard
+	priorIDs := map[int]bool{}
+	priorConn := map[int]bool{}
+	for k, h := range prior.RingByID {
+		priorIDs[evIDNum(k)] = true
+		_, _, ca := gocql.VerifHostAddrs(h)
+		priorConn[evIPNum(ca)] = true
+	}
+	count := map[int]int{}
+	for _, h := range spec {
+		if h.dc != 3 {
+			count[h.caddr]++
+		}
+	}
+	for _, h := range spec {
+		if h.dc == 3 || priorIDs[h.id] {
+			continue
+		}
+		if (priorConn[h.caddr] || count[h.caddr] > 1) && pguard == "" {
+			pguard = "new-node-on-a-connect-address-in-use"
+		}
+	}
+	if pguard == "" {
+		g.emit("evinpolicy", "evinpolicy/spec-backed", true)
+	} else {
+		g.emit("evinpolicyx", "evinpolicyx/"+pguard, true)
+	}
 }
 
 func (g *evGen) withControl() {
@@ -940,7 +1213,11 @@ func (g *evGen) withControl() {
 					cls += "/unchanged"
 				}
 			}
-			g.emit("evrefresh "+rowsStr(rows()), cls, true)
+			prior := g.w.ev.snap()
+			ans := g.emit("evrefresh "+rowsStr(rows()), cls, true)
+			if !g.dead {
+				g.afterRefresh(prior, rows(), strings.HasPrefix(ans, "ok "))
+			}
 			// rows without any address make hostInfoFromMap panic: repair for the following steps
 			for i := range peers {
 				if peers[i].defect == "noaddr" {
@@ -969,6 +1246,9 @@ func (g *evGen) withControl() {
 			if len(ids) > 0 {
 				g.emit(fmt.Sprintf("evrm %d", ids[r.Intn(len(ids))]), "evrm", true)
 			}
+		}
+		if !g.dead && len(g.w.ev.tracked) > 0 && r.Intn(3) == 0 {
+			g.emit("evnotoffered", "evnotoffered/spec-backed", true)
 		}
 	}
 }
